@@ -214,6 +214,31 @@ func checkC12(c *Check) {
 								return
 							}
 						}
+						// the skeleton itself where there is nothing to substitute: a Replacer without pairs is the identity
+						if vOr(vCall("(*bytes.Buffer).String", vIs(buf)), vCall("(*strings.Builder).String", vIs(buf)))(r.Results[0]) {
+							noVals := union(edgesWhere(up, cCmp(token.EQL, vLen(vParam(up, 1)), vConstInt(0)), true), edgesWhere(up, cCmp(token.GTR, vLen(vParam(up, 1)), vConstInt(0)), false))
+							if g, _ := guardedBy(up, noVals, isInstr(in)); g && len(noVals) > 0 {
+								// … and only once it is complete: behind the loop over the segments, not inside it
+								complete := false
+								if seg, idx := segLoopValue(up); seg != nil {
+									iv := strip(idx)
+									if b, isB := iv.(*ssa.BinOp); isB {
+										iv = strip(b.X) // range loops count from -1: the element index is φ+1
+									}
+									if ph, isPhi := iv.(*ssa.Phi); isPhi {
+										if okP, _ := mustPrecede(up, func(x ssa.Instruction) bool { return x == ssa.Instruction(ph) }, in); okP {
+											complete = true
+										}
+									}
+									if si, isI := seg.(ssa.Instruction); isI && si.Block().Dominates(in.Block()) {
+										complete = false // inside an iteration
+									}
+								}
+								if complete {
+									return
+								}
+							}
+						}
 						okEvery = false
 					}
 				}
@@ -591,4 +616,17 @@ func checkPairsMapPlain(c *Check, fn *ssa.Function, mm *ssa.MakeMap, key string)
 type skelWrite struct {
 	ci  ssa.CallInstruction
 	arg ssa.Value
+}
+
+// segLoopValue: the element value and the index of the ascending loop over route.Segments in fn, or nil.
+func segLoopValue(fn *ssa.Function) (ssa.Value, ssa.Value) {
+	var seg, idx ssa.Value
+	allInstrs(fn, func(in ssa.Instruction) {
+		if v, ok := in.(ssa.Value); ok && seg == nil {
+			if i, ok := elemIndex(v, vFieldNamed("Segments")); ok && ascendingIndex(i) {
+				seg, idx = v, i
+			}
+		}
+	})
+	return seg, idx
 }
